@@ -177,6 +177,8 @@ pub struct RunResult {
     pub stops: usize,
     /// how many times each fault spec fired
     pub fault_hits: Vec<usize>,
+    /// "call subject" of every call that was altered by a fault
+    pub hit_sites: Vec<String>,
     pub stdout: Vec<u8>,
     pub stderr: Vec<u8>,
 }
@@ -1574,6 +1576,7 @@ pub fn execute(l: &Launch, spec: &RunSpec) -> Result<RunResult, String> {
     slot.pid.store(0, Ordering::SeqCst);
     slot.since_ms.store(0, Ordering::SeqCst);
     let outcome = res?;
+    let hit_sites: Vec<String> = s.events.iter().filter(|e| e.inj != 0).map(|e| format!("{} {}", e.name, e.rel2.clone().or(e.rel.clone()).unwrap_or_default())).collect();
     Ok(RunResult {
         outcome,
         events: std::mem::take(&mut s.events),
@@ -1584,6 +1587,7 @@ pub fn execute(l: &Launch, spec: &RunSpec) -> Result<RunResult, String> {
         steps: s.steps,
         stops: s.stops,
         fault_hits: s.fault_hits.clone(),
+        hit_sites,
         stdout: std::fs::read(&l.stdout_path).unwrap_or_default(),
         stderr: std::fs::read(&l.stderr_path).unwrap_or_default(),
     })
